@@ -33,9 +33,16 @@ class BudgetExceeded(BaseException):
     pass
 
 
-def count_appends(container_cls, budget, fn):
+def count_appends(container_cls, budget, fn, ntypes=1):
+    """runs fn() with a counter on the container's append() AND on the dispatch tests of the reading loops
+    (Register.matches / Block.begins: at most one call per declared type and step) — a step that creates no
+    element (and consumes nothing) is a step all the same"""
+    from cfinterface.components.block import Block
+    from cfinterface.components.register import Register
+
     orig = container_cls.append
-    n = [0]
+    n, d = [0], [0]
+    dbudget = (budget + 2) * (ntypes + 1)
 
     def counted(self, x):
         n[0] += 1
@@ -43,7 +50,24 @@ def count_appends(container_cls, budget, fn):
             raise BudgetExceeded()
         return orig(self, x)
 
+    orig_matches = Register.__dict__["matches"]
+    orig_begins = Block.__dict__["begins"]
+
+    def matches(cls, *a, **k):
+        d[0] += 1
+        if d[0] > dbudget:
+            raise BudgetExceeded()
+        return orig_matches.__func__(cls, *a, **k)
+
+    def begins(cls, *a, **k):
+        d[0] += 1
+        if d[0] > dbudget:
+            raise BudgetExceeded()
+        return orig_begins.__func__(cls, *a, **k)
+
     container_cls.append = counted
+    Register.matches = classmethod(matches)
+    Block.begins = classmethod(begins)
     try:
         fn()
         return {"returned": True, "appends": n[0]}
@@ -51,6 +75,12 @@ def count_appends(container_cls, budget, fn):
         return {"returned": False, "appends": n[0]}
     finally:
         container_cls.append = orig
+        Register.matches = orig_matches
+        Block.begins = orig_begins
+
+
+def twin_of(x: bytes) -> bytes:
+    return bytes(b if b < 128 else 0x7A for b in x)
 
 
 def units_of(case):
@@ -72,12 +102,27 @@ def run_impl(case):
                 from cfinterface.data.registerdata import RegisterData
 
                 RF, _ = fsup.mk_register_file(case["regs"], "BINARY" if binary else "TEXT")
-                return count_appends(RegisterData, budget, (lambda: RF.read(x, linesize=case["linesize"]) if case.get("linesize_kw") else RF.read(x, case["linesize"])) if binary else (lambda: RF.read(x)))
+                nt = len(case["regs"])
+
+                def read_bin(content):
+                    return count_appends(RegisterData, budget, lambda: RF.read(content, linesize=case["linesize"]) if case.get("linesize_kw") else RF.read(content, case["linesize"]), nt)
+
+                if binary and any(b >= 128 for b in x):
+                    # bytes that are not ASCII: a window that does not decode ends the read with UnicodeDecodeError
+                    # (termination, outside the modelled domain).  The TWIN content (those bytes replaced by "z")
+                    # is what the model is asked about; the original must end too — by returning or by raising
+                    try:
+                        o = read_bin(x)
+                    except UnicodeDecodeError:
+                        o = {"returned": True, "raised": "UnicodeDecodeError"}
+                    t = read_bin(twin_of(x))
+                    return {**t, "non_ascii_original": o}
+                return read_bin(x) if binary else count_appends(RegisterData, budget, lambda: RF.read(x), nt)
             if fam == "block":
                 from cfinterface.data.blockdata import BlockData
 
                 BF, _ = fsup.mk_block_file(case["blocks"], binary)
-                return count_appends(BlockData, budget, lambda: BF.read(x))
+                return count_appends(BlockData, budget, lambda: BF.read(x), len(case["blocks"]))
             from cfinterface.data.sectiondata import SectionData
 
             SF, _ = fsup.mk_section_file(case["secs"], binary=binary)
@@ -89,7 +134,10 @@ def run_impl(case):
 def request(case, obs):
     o = obs if "returned" in obs else {"returned": False, "appends": 0}
     # a binary section file is read line by line like a text one: the model of the text is the model of the bytes
-    req = {"op": "c18", "family": case["family"], "binary": case["binary"] and case["family"] != "section", "x": case["x"], "obs": o}
+    xs = case["x"]
+    if case["family"] == "register" and case["binary"] and any(b >= 128 for b in xs):
+        xs = list(twin_of(bytes(xs)))  # the model is asked about the ASCII twin (see run_impl)
+    req = {"op": "c18", "family": case["family"], "binary": case["binary"] and case["family"] != "section", "x": xs, "obs": o}
     for k in ("regs", "blocks", "secs", "linesize"):
         if k in case:
             req[k] = case[k]
@@ -114,6 +162,9 @@ def judge(case, obs, resp):
         return {"status": "oracle", "why": f"{obs['appends']} elements created for only {m['bound']} units of input"}
     if not resp["agree"]:
         return {"status": "corr", "why": f"model creates {resp['model']['appends']} elements, implementation {obs['appends']}"}
+    o = obs.get("non_ascii_original")
+    if o is not None and not o.get("returned"):
+        return {"status": "oracle", "why": f"content with bytes that are not ASCII: the read did not finish within the step budget ({o.get('appends')} elements appended), although the same content with those bytes replaced by 'z' is read in {obs['appends']} steps"}
     return {"status": "ok", "why": ""}
 
 
@@ -187,8 +238,11 @@ def random_case0(rng):
                 rec = codec.dec_str(d["ident"]).ljust(d["digits"]).encode() + bytes(rng.randrange(0, 128) for _ in range(size - d["digits"]))
             elif rr < 0.7:
                 rec = (codec.dec_str(d["ident"]).ljust(d["digits"]).encode() + bytes(rng.randrange(0, 128) for _ in range(size)))[: rng.randrange(1, size + 1)]
-            else:
+            elif rr < 0.9:
                 rec = bytes(rng.choice(b"ZQ \x00\x01zz\n") for _ in range(rng.randrange(1, 8)))
+            else:
+                # bytes that are not valid UTF-8 on their own (a lone continuation byte, 0xff, a cut sequence)
+                rec = bytes(rng.choice(b"\x80\xff\xc3\xe2\x82z ") for _ in range(rng.randrange(1, 5)))
             chunks.append(rec)
         # the peek window goes in positionally or as a keyword (a keyword travels through **kwargs down to
         # the elements); sometimes it is wider than whole records
